@@ -582,9 +582,10 @@ def run_check(pid, tier):
     merged = None
     done = 0
     conflict_viol = []
-    while done < cfg["runs"] and time.time() - t0 < cfg["wall_cap"]:
+    # at least one round, even if the self-tests before it used up the wall-clock cap (an overloaded machine)
+    while done < cfg["runs"] and (merged is None or time.time() - t0 < cfg["wall_cap"]):
         n = min(round_size, cfg["runs"] - done)
-        part = run_batch(pid, tier, n, cfg["wall_cap"] - (time.time() - t0) + 5, offset=done)
+        part = run_batch(pid, tier, n, max(60.0, cfg["wall_cap"] - (time.time() - t0) + 5), offset=done)
         done += n
         for name, key, v1, v2 in part["stats"].pop("_conflicts", [])[:3]:
             case = mod.conflict_case(name, key, v1, v2, tier)
